@@ -87,7 +87,17 @@ def verify_android_key(
     pem_root_certs_bytes.append(google_hardware_attestation_root_3)
     pem_root_certs_bytes.append(google_hardware_attestation_root_4)
 
-    if x5c_root_cert_pem not in pem_root_certs_bytes:
+    # Compare certificates, not the way their PEM files happen to be written (line endings,
+    # text around the armour, a missing final newline)
+    known_root_certs_der = []
+    for pem_root_cert in pem_root_certs_bytes:
+        try:
+            known_root_cert = x509.load_pem_x509_certificate(pem_root_cert)
+        except (ValueError, TypeError):
+            continue
+        known_root_certs_der.append(known_root_cert.public_bytes(Encoding.DER))
+
+    if x5c_root_cert_x509.public_bytes(Encoding.DER) not in known_root_certs_der:
         raise InvalidRegistrationResponse(
             "x5c root certificate was not a known root certificate (Android Key)"
         )
